@@ -76,7 +76,15 @@ class Walk:
             w.trace.append(op)
             w.emissions = []
             out = Outcome(ok=True)
-            self.oracle.apply_extra(op, out)
+            try:
+                self.oracle.apply_extra(op, out)
+            except Exception as e:  # noqa: BLE001
+                # only for the kinds whose failure the oracle judges itself; anything else is a
+                # harness error and propagates
+                if op["op"] not in getattr(self.oracle, "extra_may_raise", ()):
+                    raise
+                out.ok = False
+                out.exc = e
             out.emitted = list(w.emissions)
         else:
             try:
